@@ -104,18 +104,27 @@ package helpers
 //@   modifies $alloc, result.count, result.wg
 //@   ensures [fresh] $fresh(result) && result.count == bufferSize && RI_Wgc(result)
 
+// B2-lite: other finishers of the same batch decrement the counter at any time (nobody increments it after construction), so what a
+// caller reads is at most what it knew -- in particular a zero read after one's own Done() does not mean one's own Done() reached zero.
 //@ func WgCounter.Count
 //@   props C08 C05
-//@   ensures result == pt.count
+//@   ensures [SEQ] result == pt.count
+//@   ensures [B1]  result == pt.count
+//@   ensures [B2]  0 <= result && result <= pt.count
 
 //@ func WgCounter.Done
 //@   props C05 C08 C05@B2 C08@B2
 // B2-lite: a call that found the counter positive performs its wg.Done() whatever other finishers do in between (no lost completion)
 //@   ensures [B2] [b2-done] old(pt.count) > 0 ==> $wgdone[0] == old($wgdone[0]) + 1
+// B2-lite: "this call finished the last item" is decided by the value the call's own atomic decrement returned, never by a later read
+//@   ghost entry: $mine := false
+//@   ghost after call sync/atomic.Uint32.Add: $mine := pt.count == 0
+//@   assert [b2-last-own] at return: result ==> $mine
 //@   requires RI_Wgc(pt)
 //@   modifies pt.count, pt.wg, $wgdone[0]
 //@   ensures [zero] old(pt.count) == 0 ==> pt.count == 0 && pt.wg == old(pt.wg)
 //@   ensures [dec]  old(pt.count) > 0 ==> pt.count == old(pt.count) - 1
+//@   ensures [last] result == (old(pt.count) == 1)
 //@   ensures [ri]   RI_Wgc(pt)
 
 //@ func WgCounter.Wait
